@@ -63,8 +63,13 @@ structure DState where
   sdead : List Conn := []        -- stream ended (by the rule of the ops)
   sn : Nat := 0                  -- connections opened so far
   sended : Bool := false
-  supd : Nat := 0                -- updates issued so far (every update names keys of its own: name~<n>)
+  supd : Nat := 0                -- updates issued so far
+  snode : List Nat := []         -- node identity presented by each connection (its own index, or the one it re-connects as)
+  sdown : Bool := false          -- DiscoveryServer.Shutdown() has been called
   sforced : List String := []    -- keys of forced updates
+  sbusy : List Conn := []        -- stream loops stuck in `Process` (answering a client request, Send blocked): they take no push event
+  sreqd : List Conn := []        -- connections that have made their one `busyreq`
+  squiet : Bool := true          -- nothing accepted since the last sync (every stream loop is idle in its select)
 
 /-- `nil`, `last`, or an index below `n`. -/
 def parseRef (n : Nat) (last : Option Ref) (t : String) : Option (Option Ref) :=
@@ -274,9 +279,26 @@ def dueAt (o : DOpts) (tFirst tLast tPush : Nat) : Bool :=
   (pushWorker { after := o.after * 1000, max := o.max * 1000, eds := o.eds }
     { now := tPush, start := tFirst, last := tLast, req := some {} }).req.isNone
 
-def acceptPushes (o : DOpts) : DB → List (View × Nat) → List (String × Nat) → Except String (DB × List (View × Nat))
-  | s, sends, [] => .ok (s, sends)
-  | s, sends, (val, tPush) :: more => do
+/-- Which branch of `pushWorker` the observed times of one push show (for the evidence counters only): `quiet`
+    (the quiet period had elapsed) or `max` (only the maximum delay had); `during` = the batch began while the
+    previous push was still running (so `case <-freeCh` had a pending batch to look at); `rearm` = the batch got a
+    later update before its first timer could fire, so that timer found neither condition true and re-armed. -/
+def branchOf (o : DOpts) (during : Bool) (tF tL tPush : Nat) : List String :=
+  [if o.after * 1000 ≤ tPush - tL then "quiet" else "max"] ++
+    (if during then ["during"] else []) ++ (if tF < tL then ["rearm"] else [])
+
+/-- Per observed push: did an update of its batch arrive before the previous push returned? -/
+def duringFlags : Bool → Bool → List TEv → List Bool
+  | _, _, [] => []
+  | infl, saw, .send _ _ :: es => duringFlags infl (saw || infl) es
+  | _, saw, .ret :: es => duringFlags false saw es
+  | _, saw, .push _ _ :: es => saw :: duringFlags true false es
+  | infl, saw, _ :: es => duringFlags infl saw es
+
+def acceptPushes (o : DOpts) : DB → List (View × Nat) → List (String × Nat) → List Bool → List String →
+    Except String (DB × List (View × Nat) × List String)
+  | s, sends, [], _, tags => .ok (s, sends, tags)
+  | s, sends, (val, tPush) :: more, fl, tags => do
     let (s1, rest, tF, tL) ← feedUntil o val s none sends
     if !dueAt o tF tL tPush then
       throw s!"pushed-before-the-quiet-period(first={tF},last={tL},push={tPush})"
@@ -284,7 +306,7 @@ def acceptPushes (o : DOpts) : DB → List (View × Nat) → List (String × Nat
     let s2 ← forcePush o s1
     if s2.pushed.length != n + 1 || (s2.pushed.getLast?.map showViewCanon) != some val then
       throw "model-did-not-push-the-observed-request"
-    acceptPushes o s2 rest more
+    acceptPushes o s2 rest more fl.tail (tags ++ branchOf o (fl.headD false) tF tL tPush)
 
 def feedAll (o : DOpts) : DB → List (View × Nat) → Except String DB
   | s, [] => .ok s
@@ -314,13 +336,14 @@ def acceptTrace (o : DOpts) (h : Heap) (toks : List String) : String :=
       let byp := sortStr (evs.filterMap (fun e => match e with | .eds v => some v | _ => none))
       let sent := (evs.filterMap (fun e => match e with | .sent n => some n | _ => none)).head?
       let res : Except String String := do
-        let (s1, rest) ← acceptPushes o {} sends pushes
+        let (s1, rest, tags) ← acceptPushes o {} sends pushes (duringFlags false false evs) []
         let s2 ← feedAll o s1 rest
         if s2.req.isSome then throw "update-still-pending-in-the-model-after-the-last-observed-push"
         let f := drain o (4 * s2.recvd.length + 8) s2
         if sortStr (f.edsPushed.map showViewCanon) != byp then throw "bypass-pushes-differ"
         if some f.sent != sent then throw s!"committed-count(model={f.sent})"
-        pure s!"accept pushes={pushes.length} bypass={byp.length} events={f.recvd.length}"
+        let cnt := fun (t : String) => (tags.filter (· == t)).length
+        pure s!"accept pushes={pushes.length} bypass={byp.length} events={f.recvd.length} quiet={cnt "quiet"} max={cnt "max"} during={cnt "during"} rearm={cnt "rearm"}"
       match res with
       | .ok m => m
       | .error e => s!"reject:{e}"
@@ -335,6 +358,14 @@ def stepDebounce (s : DState) (toks : List String) : DState × String :=
       | some v => ({ s with db := onRecv s.dopts s.db v }, "ok")
       | none => (s, "bad-op")
     | _ => (s, "bad-op")
+  | ["flood", r, n, _gap] =>
+    match parseRefDecl s.heap.reqs.length r, n.toNat? with
+    | some (some i), some n =>
+      if n == 0 then (s, "bad-op") else
+      match viewAt s.heap (some i) with
+      | some v => ({ s with db := (List.range n).foldl (fun db _ => onRecv s.dopts db v) s.db }, "ok")
+      | none => (s, "bad-op")
+    | _, _ => (s, "bad-op")
   | ["sleep", d] => ({ s with db := { s.db with now := s.db.now + d.toNat?.getD 0 } }, "ok")
   | ["hold"] => (s, "ok")
   | ["release"] => (s, "ok")
@@ -440,7 +471,7 @@ def srvKill (s : DState) (c : Conn) : DState :=
   let p1 := pev (pev s.pipe (.snd (.close c))) (.unregister c)
   let p2 := if hasDelivered p1 c then pev p1 (.snd (.pushDone c)) else p1
   { s with pipe := p2, sdead := if s.sdead.contains c then s.sdead else s.sdead ++ [c]
-           sblocked := s.sblocked.filter (· ≠ c), sheld := s.sheld.filter (· ≠ c) }
+           sblocked := s.sblocked.filter (· ≠ c), sheld := s.sheld.filter (· ≠ c), sbusy := s.sbusy.filter (· ≠ c) }
 
 def srvStep (s : DState) : Option DState :=
   let p := s.pipe
@@ -456,7 +487,7 @@ def srvStep (s : DState) : Option DState :=
       | some snd' => some { s with pipe := { p with snd := snd' } }
       | none =>
         -- a parked push event whose client is reading
-        match p.snd.parked.find? (fun f => !s.sheld.contains f.1 && !p.snd.closed f.1 && !hasDelivered p f.1) with
+        match p.snd.parked.find? (fun f => !s.sheld.contains f.1 && !s.sbusy.contains f.1 && !p.snd.closed f.1 && !hasDelivered p f.1) with
         | none => none
         | some f =>
           let c := f.1
@@ -479,7 +510,8 @@ def srvSettle : Nat → DState → DState
 def srvSeen (s : DState) (c : Conn) : String :=
   let ds := s.pipe.seenLog.filter (fun e => e.1 == c)
   let keysOf := fun (fs : List Fact) => fs.filterMap (fun f => match f with | .cfg k => some k | _ => none)
-  let cs := ds.flatMap (fun e => (keysOf e.2.2).map (fun k => "c:" ++ k))
+  let cs := ds.flatMap (fun e => e.2.2.map (fun f => match f with
+    | .cfg k => "c:" ++ k | .adr k => "a:" ++ k | .wp k => "w:" ++ k | .forced => "forced"))
   let fs := ds.flatMap (fun e => if e.2.2.contains .forced then
       ((keysOf e.2.2).filter (fun k => s.sforced.contains k)).map (fun k => "f:" ++ k) else [])
   let cur := match ds.getLast? with
@@ -490,43 +522,97 @@ def srvSeen (s : DState) (c : Conn) : String :=
 def srvSummary (s : DState) : String :=
   if s.sn == 0 then "-" else
   " ".intercalate ((List.range s.sn).map (fun c =>
-    if s.sdead.contains c then s!"{c}=dead" else s!"{c}={srvSeen s c}"))
+    if s.sdead.contains c then s!"{c}=dead" else if s.sdown then s!"{c}=*" else s!"{c}={srvSeen s c}"))
 
 def srvStuck (s : DState) : Bool :=
-  !s.sheld.isEmpty || s.sblocked.any (fun c => !s.sdead.contains c)
+  !s.sheld.isEmpty || s.sblocked.any (fun c => !s.sdead.contains c) || !s.sbusy.isEmpty
 
 def srvRelease (s : DState) : DState := { s with sheld := [] }
 
 def srvUnblock (s : DState) (c : Conn) : DState :=
-  let s1 := { s with sblocked := s.sblocked.filter (· ≠ c) }
+  let s1 := { s with sblocked := s.sblocked.filter (· ≠ c), sbusy := s.sbusy.filter (· ≠ c) }
   if hasDelivered s1.pipe c then
     let s2 := { s1 with pipe := pev s1.pipe (.snd (.pushDone c)) }
     if s2.sfailing.contains c then srvKill s2 c else s2
   else s1
 
+def srvUpdate (s : DState) (forced : Bool) (ks as ws : List String) : DState × String :=
+  if s.sended then (s, "bad-op") else
+  let opt := fun (l : List String) => if l.isEmpty then none else some l
+  let v : View := { configs := opt ks, addrs := opt as, wps := opt ws, forced := forced, reason := some [("config", 1)] }
+  let s1 := if s.pipe.chan.length < chanCap then s else srvSettle 1000 s   -- ConfigUpdate blocks while the channel is full
+  ({ s1 with pipe := pev s1.pipe (.configUpdate v), supd := s1.supd + 1, squiet := false
+             sforced := if forced then s1.sforced ++ ks else s1.sforced }, "ok")
+
 def stepServer (s : DState) (toks : List String) : DState × String :=
   match toks with
-  | ["update", f, ks] =>
+  | ["update", f, ks] => srvUpdate s (tokBool f) (decList ks) [] []
+  | ["update", f, ks, as, ws] => srvUpdate s (tokBool f) (decList ks) (decList as) (decList ws)
+  | ["updatepar", f, ks] =>
     if s.sended then (s, "bad-op") else
-    let keys := decList ks
-    let v : View := { configs := some keys, forced := tokBool f, reason := some [("config", 1)] }
-    let s1 := if s.pipe.chan.length < chanCap then s else srvSettle 1000 s   -- ConfigUpdate blocks while the channel is full
-    ({ s1 with pipe := pev s1.pipe (.configUpdate v), supd := s1.supd + 1
-               sforced := if tokBool f then s1.sforced ++ keys else s1.sforced }, "ok")
+    ((decList ks).foldl (fun st k => (srvUpdate st (tokBool f) [k] [] []).1) s, "ok")
+  | ["proxyupdate", i] =>
+    match i.toNat? with
+    | some i =>
+      if i >= s.sn || s.sdead.contains i || s.sheld.contains i || s.sended ||
+          ((List.range s.sn).any (fun j => j != i && s.snode[j]? == s.snode[i]?)) then (s, "bad-op")
+      else ({ s with pipe := pev s.pipe (.proxyUpdate i s.pipe.version), squiet := false }, "ok")
+    | none => (s, "bad-op")
+  | ["pushall"] =>
+    -- the debug trigger `AdsPushAll(s)`: the third producer; a forced request with the global push context for every
+    -- registered connection (one `Enqueue` each, as `StartPush` does)
+    if s.sended then (s, "bad-op") else
+    ({ s with pipe := s.pipe.conns.foldl (fun p c => pev p (.proxyUpdate c p.version)) s.pipe, squiet := false }, "ok")
+  | ["stopconn", i] =>
+    match i.toNat? with
+    | some i =>
+      -- a loop stuck in `Process` (busy) holds no push event: it can be told to stop; one stuck in a push cannot here
+      if i >= s.sn || s.sdead.contains i || s.sheld.contains i || (s.sblocked.contains i && !s.sbusy.contains i) || s.sended then
+        (s, "bad-op")
+      else
+        let p1 := pev (pev s.pipe (.snd (.loopReturn i))) (.unregister i)
+        ({ s with pipe := p1, sdead := s.sdead ++ [i] }, "ok")
+    | none => (s, "bad-op")
+  | ["busyreq", i] =>
+    -- the client stops reading and asks for one more resource type: the stream loop sits in `Process` (blocked in
+    -- Send) and takes no push event until `unblock`; only right after a sync (the loop is idle in its select)
+    match i.toNat? with
+    | some i =>
+      if i >= s.sn || s.sdead.contains i || s.sheld.contains i || s.sblocked.contains i || s.sfailing.contains i ||
+          s.sreqd.contains i || !s.squiet || s.sdown || s.sended then (s, "bad-op")
+      else ({ s with sblocked := s.sblocked ++ [i], sbusy := s.sbusy ++ [i], sreqd := s.sreqd ++ [i] }, "ok")
+    | none => (s, "bad-op")
+  | ["req", i] =>
+    match i.toNat? with
+    | some i => if i < s.sn && !s.sdead.contains i && !s.sended then (s, "ok") else (s, "bad-op")
+    | none => (s, "bad-op")
+  | ["reconn", i, j, kind] =>
+    match i.toNat?, j.toNat? with
+    | some i, some j =>
+      if i >= s.sn || s.sdead.contains i || !s.sheld.isEmpty || s.sended || j != s.sn || (kind != "sotw" && kind != "delta") then
+        (s, "bad-op")
+      else
+        let s1 := srvKill s i
+        ({ s1 with pipe := pev s1.pipe (.register j), sn := s1.sn + 1, snode := s1.snode ++ [s1.snode.getD i i] }, "ok")
+    | _, _ => (s, "bad-op")
+  | ["shutdown"] =>
+    if s.sdown || srvStuck s || s.sended then (s, "bad-op")
+    else ({ s with pipe := pev s.pipe (.snd .shut), sdown := true }, "ok")
   | [op, i, kind] =>
     if (op != "conn" && op != "connheld") || (kind != "sotw" && kind != "delta") || s.sended then (s, "bad-op") else
     match i.toNat? with
     | none => (s, "bad-op")
     | some i =>
       if i != s.sn || (op == "connheld" && !s.sheld.isEmpty) then (s, "bad-op") else
-      ({ s with pipe := pev s.pipe (.register i), sn := s.sn + 1, sheld := if op == "connheld" then [i] else s.sheld }, "ok")
+      ({ s with pipe := pev s.pipe (.register i), sn := s.sn + 1, snode := s.snode ++ [i]
+                sheld := if op == "connheld" then [i] else s.sheld }, "ok")
   | ["release", i] =>
     match i.toNat? with
-    | some i => if s.sheld == [i] then (srvRelease s, "ok") else (s, "bad-op")
+    | some i => if s.sheld == [i] then ({ srvRelease s with squiet := false }, "ok") else (s, "bad-op")
     | none => (s, "bad-op")
   | ["failsend", i] =>
     match i.toNat? with
-    | some i => if i < s.sn && !s.sheld.contains i then ({ s with sfailing := s.sfailing ++ [i] }, "ok") else (s, "bad-op")
+    | some i => if i < s.sn && !s.sheld.contains i && !s.sbusy.contains i then ({ s with sfailing := s.sfailing ++ [i] }, "ok") else (s, "bad-op")
     | none => (s, "bad-op")
   | ["blocksend", i] =>
     match i.toNat? with
@@ -545,12 +631,12 @@ def stepServer (s : DState) (toks : List String) : DState × String :=
     if srvStuck s || s.sended then (s, "bad-op") else
     let s1 := srvSettle 100000 s
     -- a new window: from here on the logs speak about what is accepted / delivered from now on (`mark`)
-    ({ s1 with pipe := pev s1.pipe .mark, sforced := [] }, srvSummary s1)
+    ({ s1 with pipe := pev s1.pipe .mark, sforced := [], squiet := true }, srvSummary s1)
   | ["end"] =>
     if s.sended then (s, "bad-op") else
     let s0 := srvRelease s
     let s1 := (s0.sblocked.filter (fun c => !s0.sdead.contains c)).foldl srvUnblock s0
-    let s2 := srvSettle 100000 { s1 with sblocked := [] }
+    let s2 := srvSettle 100000 { s1 with sblocked := [], sbusy := [] }
     let held := ((List.range s2.sn).filter (fun c => (s2.pipe.snd.q.processing c).isSome)).length
     ({ s2 with sended := true }, s!"{srvSummary s2} held={held} verdict=OK")
   | _ => (s, "bad-op")
@@ -558,10 +644,12 @@ def stepServer (s : DState) (toks : List String) : DState × String :=
 def step (s : DState) (toks : List String) : DState × String :=
   match toks with
   | "case" :: _ :: "queue" :: n :: _ => ({ nconn := n.toNat?.getD 0 }, "ok")
-  | "case" :: _ :: "server" :: _ =>
-    -- the real server: DebounceAfter 3 ms, debounceMax 10 s, EDS debounce on, push throttle 100, sender running
-    ({ stream := "server", pipe := { opts := { after := 3, max := 10000, eds := true },
-                                     snd := settle 10 { cap := 100 } } }, "ok")
+  | "case" :: _ :: "server" :: rest =>
+    -- the real server: DebounceAfter 3 ms, debounceMax 10 s, sender running; push throttle and EDS debounce per case
+    let thr := (rest.head?.bind (·.toNat?)).getD 0
+    let eds := (rest.drop 1).head? != some "0"
+    ({ stream := "server", pipe := { opts := { after := 3, max := 10000, eds := eds },
+                                     snd := settle 10 { cap := if thr == 0 then 100 else thr } } }, "ok")
   | "case" :: _ :: "sender" :: n :: cap :: _ =>
     ({ nconn := n.toNat?.getD 0, snd := { cap := cap.toNat?.getD 1 }, stream := "sender" }, "ok")
   | "case" :: _ :: "debounce" :: a :: m :: e :: _ =>
